@@ -17,6 +17,7 @@ func stringify(ty *Type, inProcess util.PtrSet) string {
 			return fmt.Sprintf("recursive-type %s@%p", ty.Kind, ty)
 		} else {
 			inProcess.Add(ty)
+			defer inProcess.Remove(ty)
 		}
 	}
 
